@@ -66,7 +66,7 @@ class C09(Check):
     assumptions = ["opcode semantics table transcribed from bytecode/src/instruction.rs (validated by the traces on the unchanged tree)",
                    "a call yields 0 or 1 operand (result arity is not tracked)"]
     chunksize = 16
-    quick_cap_s = 50
+    quick_cap_s = 300
     thorough_cap_s = 40 * 60
 
     def layers(self, tier):
